@@ -124,3 +124,23 @@ def manytables_jobs(tmp, opts=0, counts=(39, 40, 41, 64)):
         for cps in ([0x1000, 0x1031, 0x102C], [0x1000, 0x103C, 0x102D, 0x102F, 0x20, 0x1019]):
             out.append({"font": p, "cps": cps, "dir": 0, "opts": opts, "ppm": 0, "id": "manytables%d:%d" % (n, len(cps))})
     return out
+
+
+
+def pseudo_font_job(tmp):
+    """A synthesised font whose Silf pseudo-glyph map lists one code point twice (the first entry wins), with a text
+    file whose lines use the pseudo-mapped characters in changing company: a `file` job for the order comparisons."""
+    from fontgen import gfont
+    d = os.path.join(tmp, "pseudofont")
+    os.makedirs(d, exist_ok=True)
+    fp, tp = os.path.join(d, "pseudo.ttf"), os.path.join(d, "pseudo.txt")
+    if not os.path.exists(fp):
+        adv = [0, 500, 600, 450, 700, 300, 250]
+        m = {"upem": 1000, "rtl": 0, "nuser": 1, "glyphs": [{"adv": a, "attrs": {}} for a in adv],
+             "cmap": {97 + g: g + 1 for g in range(3)}, "classes": [[1, 2], [4, 5, 6]], "nlinear": 2,
+             "pseudos": [(0xE000, 4), (0xE001, 5), (0xE000, 6), (0xE002, 2), (0xE001, 3)],
+             "passes": [{"kind": "sub", "maxloop": 3, "rules": [{"pre": 0, "ctx": [1, 0], "con": b"", "act": bytes([25, 28, 1, 25, 49])}]}]}
+        open(fp, "wb").write(gfont.build_font(m))
+        lines = ["a\ue000b", "\ue001\ue000", "\ue002a\ue001", "\ue000\ue000c", "b\ue001\ue002\ue000", "\ue002", "c\ue000", "\ue001a\ue001"]
+        open(tp, "w", encoding="utf-8").write("\n".join(lines * 2) + "\n")
+    return {"font": fp, "file": tp, "dir": 0, "opts": 0, "ppm": 0, "maxlines": 1000, "chunk": 0, "id": "pseudofont:dup"}
